@@ -33,7 +33,9 @@ LEVEL_TEXT = ('The state graph of persisted environments under "run again with s
               'first to depth 3 (4) for every small graph; each edge is computed by exhaustively exploring the interleavings of the real '
               'scheduler (preemption bound 0-1) from that state, and the re-run invariant (nothing DONE is older than a DONE dependency or '
               'sits on a failed hard dependency; untouched up-to-date tasks are neither executed nor modified) is checked at the end of '
-              'every execution.')
+              'every execution. The persisted path is explored too: BFS over histories of the real `valjean run` command (job file, read_env, '
+              'scheduler on real threads, write_env) on one output directory, state = what is on disk, with failing tasks, lost environment '
+              'files and tasks added to / removed from the job between runs; same clauses.')
 LEVEL_NOTE = 'bounded preemptions per run; logical clock (strict and coarse).'
 from .c01 import ASSUMPTIONS as _A01  # noqa: E402,F401  pylint: disable=wrong-import-position,unused-import
 
